@@ -10,7 +10,8 @@ Record itok : Set := mk_itok {
   i_col : Z;                   (* ._charno *)
   i_quote : list Z;            (* TokString._quote or [] *)
   i_ml : option (list Z);      (* TokString._multiline_quote *)
-  i_val : option (Z * Z)       (* TokNumber.value as an exact fraction; None: raised, or not a number *)
+  i_val : option (Z * Z);      (* TokNumber.value as an exact fraction; None: raised, or not a number *)
+  i_sval : list Z              (* TokString.value (the denoted bytes); [] for other classes *)
 }.
 
 Definition opt_list_eqb (a b : option (list Z)) : bool :=
@@ -28,10 +29,13 @@ Definition tok_diff (s : stok) (i : itok) : Z :=
     let d :=
       match s_kind s with
       | SString =>
-        if negb (zlist_eqb (s_text s) (i_data i)) then 4
+        if negb (zlist_eqb (s_text s) (i_sval i)) then 4
         else if s_long s <? 0 then
           (if zlist_eqb (i_quote i) (firstn 1 (s_raw s)) && opt_list_eqb (i_ml i) None then 0 else 5)
-        else (if opt_list_eqb (i_ml i) (Some (repeat 61 (Z.to_nat (s_long s)))) then 0 else 5)
+        else
+          let eqs := repeat 61 (Z.to_nat (s_long s)) in
+          if negb (opt_list_eqb (i_ml i) (Some eqs)) then 5
+          else if zlist_eqb (s_raw s) (91 :: eqs ++ 91 :: i_data i ++ 93 :: eqs ++ [93]) then 0 else 6
       | SNumber =>
         if negb (zlist_eqb (s_raw s) (i_data i)) then 6
         else match i_val i with
@@ -75,7 +79,7 @@ Definition holds_C07_error (src : list Z) : bool :=
 (* chunking independence: the two observed token lists are the same, field by field *)
 Definition itok_eqb (a b : itok) : bool :=
   (i_kind a =? i_kind b) && zlist_eqb (i_data a) (i_data b) && (i_line a =? i_line b) && (i_col a =? i_col b)
-  && zlist_eqb (i_quote a) (i_quote b) && opt_list_eqb (i_ml a) (i_ml b)
+  && zlist_eqb (i_quote a) (i_quote b) && opt_list_eqb (i_ml a) (i_ml b) && zlist_eqb (i_sval a) (i_sval b)
   && match i_val a, i_val b with
      | Some (n, d), Some (n', d') => (n * d' =? n' * d)
      | None, None => true
